@@ -312,3 +312,55 @@ package gohlslib
 //@   requires unheld(&s.mutex) && r != nil && r.URL != nil
 //@   ensures calls("dyncall") <= 1
 //@ end
+
+// ---------------------------------------------------------------------------------------
+// C01 / C03 / C05 / C18: parts
+
+//@ pred distinctTracks(ts []*muxerTrack) := forall(a, (0 <= a && a < len(ts)) ==> ts[a] != nil)
+//@   && forall(a, b, (0 <= a && a < b && b < len(ts)) ==> ts[a] != ts[b])
+
+// finalize drains each track's sample list exactly once, in track order, into one fragment
+//@ func muxerPart.finalize
+//@   props C01 C03 C05
+//@   requires p.storage != nil && distinctTracks(p.streamTracks)
+//@   requires is(p.storage, *storage.partDisk) ==> p.storage.(*storage.partDisk).s != nil
+//@   modifies p.endDTS, muxerTrack.fmp4Samples
+//@   ensures result == nil ==> p.endDTS == endDTS
+//@   ensures result != nil ==> p.endDTS == old(p.endDTS)
+//@   ensures forall(k, (0 <= k && k < len(p.streamTracks)) ==> p.streamTracks[k].fmp4Samples == nil)
+//@   ensures forall(t, (t != nil && forall(k, (0 <= k && k < len(p.streamTracks)) ==> p.streamTracks[k] != t)) ==> as(t, *muxerTrack).fmp4Samples == old(as(t, *muxerTrack).fmp4Samples))
+//@   loop 1 invariant -1 <= ri && ri < len(p.streamTracks) && part.SequenceNumber == uint32(p.id)
+//@   loop 1 invariant forall(k, (0 <= k && k <= ri) ==> p.streamTracks[k].fmp4Samples == nil)
+//@   loop 1 invariant forall(t, (t != nil && forall(k, (0 <= k && k <= ri) ==> p.streamTracks[k] != t)) ==> as(t, *muxerTrack).fmp4Samples == old(as(t, *muxerTrack).fmp4Samples))
+//@   loop 1 invariant forall(j, (0 <= j && j < len(part.Tracks)) ==> (part.Tracks[j] != nil && allocated(part.Tracks[j]) && 1 <= part.Tracks[j].ID && part.Tracks[j].ID <= 1 + ri
+//@        && old(p.streamTracks[now(part.Tracks[j].ID) - 1].fmp4Samples) != nil
+//@        && part.Tracks[j].Samples == old(p.streamTracks[now(part.Tracks[j].ID) - 1].fmp4Samples)
+//@        && part.Tracks[j].BaseTime == uint64(p.streamTracks[part.Tracks[j].ID - 1].fmp4StartDTS)))
+//@   loop 1 invariant forall(j1, j2, (0 <= j1 && j1 < j2 && j2 < len(part.Tracks)) ==> part.Tracks[j1].ID < part.Tracks[j2].ID)
+//@   loop 1 invariant forall(k, (0 <= k && k <= ri && old(p.streamTracks[k].fmp4Samples) != nil) ==> exists(j, 0 <= j && j < len(part.Tracks) && part.Tracks[j].ID == 1 + k))
+//@   atcall fmp4.Part.Marshal arg0.SequenceNumber == uint32(p.id)
+//@   atcall fmp4.Part.Marshal forall(j, (0 <= j && j < len(arg0.Tracks)) ==> (1 <= arg0.Tracks[j].ID && arg0.Tracks[j].ID <= len(p.streamTracks)
+//@        && old(p.streamTracks[now(arg0.Tracks[j].ID) - 1].fmp4Samples) != nil
+//@        && arg0.Tracks[j].Samples == old(p.streamTracks[now(arg0.Tracks[j].ID) - 1].fmp4Samples)
+//@        && arg0.Tracks[j].BaseTime == uint64(p.streamTracks[arg0.Tracks[j].ID - 1].fmp4StartDTS)))
+//@   atcall fmp4.Part.Marshal forall(j1, j2, (0 <= j1 && j1 < j2 && j2 < len(arg0.Tracks)) ==> arg0.Tracks[j1].ID < arg0.Tracks[j2].ID)
+//@   atcall fmp4.Part.Marshal forall(k, (0 <= k && k < len(p.streamTracks) && old(p.streamTracks[k].fmp4Samples) != nil) ==> exists(j, 0 <= j && j < len(arg0.Tracks) && arg0.Tracks[j].ID == 1 + k))
+//@ end
+
+// writeSample appends exactly the given sample to the track's list, or fails without any change
+//@ func muxerPart.writeSample
+//@   props C01 C18
+//@   requires p.segment != nil && track != nil && sample != nil && track.stream != nil
+//@   requires p.segmentMaxSize <= 4611686018427387904 && p.segment.size <= p.segmentMaxSize
+//@   modifies p.segment.size, track.fmp4StartDTS, p.isIndependent, track.fmp4Samples
+//@   ensures result != nil ==> (p.segment.size == old(p.segment.size) && track.fmp4StartDTS == old(track.fmp4StartDTS)
+//@        && p.isIndependent == old(p.isIndependent) && track.fmp4Samples == old(track.fmp4Samples))
+//@   ensures result != nil <==> old(p.segment.size) + len(sample.Payload) > p.segmentMaxSize
+//@   ensures result == nil ==> (p.segment.size == old(p.segment.size) + len(sample.Payload) && p.segment.size <= p.segmentMaxSize)
+//@   ensures result == nil ==> (len(track.fmp4Samples) == old(len(track.fmp4Samples)) + 1
+//@        && track.fmp4Samples[len(track.fmp4Samples)-1] == &sample.PartSample
+//@        && forall(i, (0 <= i && i < old(len(track.fmp4Samples))) ==> track.fmp4Samples[i] == old(track.fmp4Samples[i])))
+//@   ensures result == nil ==> (old(track.fmp4Samples) == nil ==> track.fmp4StartDTS == sample.dts)
+//@   ensures result == nil ==> (old(track.fmp4Samples) != nil ==> track.fmp4StartDTS == old(track.fmp4StartDTS))
+//@   ensures result == nil ==> track.fmp4Samples != nil
+//@ end
